@@ -521,6 +521,9 @@ def w_alias():
         "def f(a):\n    b = a\n    a = a + 1\n    db.Setting = b\n    db.On = a\nwhile True:\n    f(d0.Setting)\n    f(2)\n    yield_()\n",
         "x = d0.Setting\nwhile True:\n    y = x\n    x = x + 1\n    db.Setting = y\n    db.On = x\n    yield_()\n",
         "x = d0.Setting\ny = x\nif d1.Setting > 1:\n    x = 7\ndb.Setting = y\ndb.On = x\n",
+        # a global passed as argument to a function that reassigns the global: the inlined parameter aliases the global's register
+        "G = 0\ndef f(a):\n    global G\n    G = G + 1\n    db.On = a\nwhile True:\n    f(G)\n    db.Setting = G\n    yield_()\n",
+        "G = d0.Setting\ndef f(a, b):\n    global G\n    G = G + b\n    return a * 10\nwhile True:\n    db.On = f(G, 2)\n    db.Setting = G\n    yield_()\n",
     ]
     return [mk("W-F01a", i, s, V=[0, 1, 2, 3], K=8, T=2, cap=64) for i, s in enumerate(srcs)]
 
@@ -612,7 +615,7 @@ LEAF_RET = {
     "bare": "if {t} > 1:\n    return\ndb.On = {t}\n",
 }
 LEAF_HASRET = {"end", "early", "multi", "loop"}
-MID_USE = ["stmt", "assign", "expr", "tailstmt", "retcall", "inloop", "inif", "twice_inside"]
+MID_USE = ["stmt", "assign", "expr", "tailstmt", "retcall", "inloop", "inif", "twice_inside", "early_before", "early_after", "early_between"]
 
 
 def func2(tier="quick"):
@@ -655,6 +658,26 @@ def func2(tier="quick"):
                     elif use == "inif":
                         body = pre + "if p > 1:\n" + ind(call if not has else f"db.Lock = {call}") + post
                         mret = False
+                    elif use == "early_before":
+                        # mid: early return BEFORE the inner call (ra is saved at entry and must be restored on every exit)
+                        if has:
+                            body = pre + "if p > 2:\n    return 77\n" + f"u = {call}\n" + post + "return u + 100\n"
+                        else:
+                            body = pre + "if p > 2:\n    return\n" + call + "\n" + post
+                        mret = has
+                    elif use == "early_after":
+                        if has:
+                            body = pre + f"u = {call}\nif u > 12:\n    return u\n" + post + "return u + 100\n"
+                        else:
+                            body = pre + call + "\nif p > 1:\n    return\n" + post
+                        mret = has
+                    elif use == "early_between":
+                        c2 = f"leaf({', '.join(['1', 'p', '3', 'p', '5'][:ar])})"
+                        if has:
+                            body = pre + f"u = {call}\nif p == 1:\n    return u + 5\nv = {c2}\n" + post + "return u + v\n"
+                        else:
+                            body = pre + call + "\nif p == 1:\n    return\n" + c2 + "\n" + post
+                        mret = has
                     else:  # twice_inside
                         c2 = f"leaf({', '.join(['1', 'p', '3', 'p', '5'][:ar])})"
                         body = pre + (f"u = {call}\nv = {c2}\n" + post + "return u + v\n" if has else call + "\n" + c2 + "\n" + post)
@@ -662,7 +685,7 @@ def func2(tier="quick"):
                     mid = fdef("mid", ["p"], body)
                     for leaf_also_main in (False, True):
                         for mid_twice in (False, True):
-                            if tier == "quick" and (n % 3) and not (use in ("tailstmt", "retcall") and not locals_live):
+                            if tier == "quick" and (n % 3) and not (use in ("tailstmt", "retcall", "early_before", "early_after", "early_between") and not locals_live):
                                 n += 1
                                 continue
                             m1 = "db.Setting = mid(d0.Setting)\n" if mret else "mid(d0.Setting)\n"
@@ -732,7 +755,7 @@ def names_lib():
 # ----------------------------------------------------------------------------
 # LIB (multi-module programs) -- C13, also C04/C07
 
-def _lib_module(pre, ret, twice, never, mainblock, init, effect_attr):
+def _lib_module(pre, ret, twice, never, mainblock, init, effect_attr, second=False):
     """Source of one library module.  pre = '' for the module form, '<mod>_' for the merged form."""
     P = lambda n: pre + n
     s = f"{P('count')} = {init}\n"
@@ -743,6 +766,9 @@ def _lib_module(pre, ret, twice, never, mainblock, init, effect_attr):
             s += fdef(P("twice"), ["k"], f"u = {P('bump')}(k)\nw = {P('bump')}(k + 1)\nreturn u + w\n")
         else:
             s += fdef(P("twice"), ["k"], f"{P('bump')}(k)\n{P('bump')}(k + 1)\n")
+    if second:
+        # a second module-level variable, defined after the first function (its source lines do not overlap the first one's)
+        s += f"{P('total')} = 5\n" + fdef(P("accum"), ["k"], f"global {P('total')}\n{P('total')} = {P('total')} + k * 3\ndb.Color = {P('total')}\n")
     if never:
         s += fdef(P("never"), ["z"], f"db.Open = z + {P('count')}\n")
     if mainblock and not pre:
@@ -758,9 +784,11 @@ def lib(tier="quick"):
             for twice in (False, True):
                 for collide in (False, True):
                     for alias_a in (False, True):
-                        for flags in range(8):
-                            never, mainblock, init_dev = flags & 1, flags & 2, flags & 4
+                        for flags in range(16):
+                            never, mainblock, init_dev, second = flags & 1, flags & 2, flags & 4, bool(flags & 8)
                             for pattern in ("once", "twice", "mixed"):
+                                if second and pattern != "mixed":
+                                    continue
                                 if tier == "quick" and (n % 2) and pattern != "mixed":
                                     n += 1
                                     continue
@@ -769,9 +797,9 @@ def lib(tier="quick"):
                                 bind_b = mb
                                 mods, rmods, merged = {}, {}, ""
                                 init_a = "d1.Setting" if init_dev else "0"
-                                mods[ma] = _lib_module("", ret, twice, never, mainblock, init_a, "On")
+                                mods[ma] = _lib_module("", ret, twice, never, mainblock, init_a, "On", second)
                                 rmods[ma] = (mods[ma], bind_a)
-                                merged += _lib_module(ma + "_", ret, twice, never, False, init_a, "On")
+                                merged += _lib_module(ma + "_", ret, twice, never, False, init_a, "On", second)
                                 imp = f"from library import {ma}" + (f" as {bind_a}" if alias_a else "") + "\n"
                                 if nmods == 2:
                                     # second module: same global / function names as the first one (collision dimension is about main)
@@ -798,6 +826,9 @@ def lib(tier="quick"):
                                         c.append((f"db.Setting = {B}bump(x) + 1" if ret else f"{B}bump(x)"))
                                         if pattern == "twice":
                                             c.append((f"db.Setting = {B}bump(2)" if ret else f"{B}bump(2)"))
+                                    if second:
+                                        c.append(f"{A}accum(x)")
+                                        c.append(f"{A}accum(1)")
                                     c.append(f"{fname}(x)")
                                     if pattern != "once":
                                         c.append(f"{fname}(1)")
@@ -810,7 +841,7 @@ def lib(tier="quick"):
                                 twin = None
                                 if never:
                                     twin = dict(mods)
-                                    twin[ma] = _lib_module("", ret, twice, False, mainblock, init_a, "On")
+                                    twin[ma] = _lib_module("", ret, twice, False, mainblock, init_a, "On", second)
                                 out.append(mk("LIB", n, main, modules=mods, ref_src=ref_main, ref_modules=rmods, merged_src=merged_src, twin_modules=twin,
                                               tag=f"{nmods}/{ret}/{twice}/{collide}/{alias_a}/{flags}/{pattern}", V=[0, 1, 2], K=12, T=2, cap=48))
                                 n += 1
@@ -873,4 +904,82 @@ def dead(tier="quick"):
                 src3 = defs + pre + "def work(x):\n" + ind(body + tail + "db.Open = x\n") + "while True:\n    work(d0.Setting)\n    work(2)\n    yield_()\n"
                 out.append(mk(fam, n, src3, tag=f"func/{T}/{sn}/{an}", V=[0, 1, 2, 3], K=10, T=2, cap=64))
                 n += 1
+    return out
+
+
+
+# ----------------------------------------------------------------------------
+# FORFN: for-range loops whose start / bound / step are parameters or locals of a function (lifetimes around the loop) -- C04, C01
+
+def forfn(tier="quick"):
+    out = []
+    n = 0
+    bounds = {"param": ("", "n"), "local": ("m = n + 1\n", "m"), "expr": ("", "n + 1"), "const": ("", "4")}
+    steps = {"none": None, "const2": "2", "param": "st", "neg": "-1"}
+    starts = {"none": None, "const1": "1", "param": "b0"}
+    bodies = {
+        "simple": ("", "db.On = i\n", ""),
+        "temp": ("", "d1.Setting = (i + 1) * 2\n", ""),
+        "temps": ("", "d1.Setting = (i + 1) * 2 + (i + 3) * (i + 4)\ndb.On = i * i - 1\n", ""),
+        "acc": ("acc = 0\n", "acc = acc + i * 2\n", "db.Setting = acc\n"),
+        "inner": ("", "for j in range(i):\n    db.On = i * 10 + j\n", ""),
+        "call": ("", "show((i + 1) * 3)\n", ""),
+    }
+    for bk, (bpre, bexpr) in bounds.items():
+        for sk, sexpr in steps.items():
+            for tk, texpr in starts.items():
+                if sexpr is not None and texpr is None:
+                    texpr_eff = "0"
+                else:
+                    texpr_eff = texpr
+                if sk == "neg":
+                    # counting down: start from the bound, stop at the start value
+                    hi, lo = bexpr, (texpr_eff or "0")
+                    rng = f"range({hi}, {lo}, -1)"
+                else:
+                    args = [a for a in (texpr_eff, bexpr) if a is not None] + ([sexpr] if sexpr is not None else [])
+                    rng = f"range({', '.join(args)})"
+                for bodyk, (pre, body, post) in bodies.items():
+                    for after in (False, True):
+                        if tier == "quick" and (n % 2) and bodyk in ("simple", "inner") :
+                            n += 1
+                            continue
+                        use_after = (f"db.Mode = {bexpr.split()[0]}\n" if after and bk != "const" else "")
+                        fbody = bpre + pre + f"for i in {rng}:\n" + ind(body) + post + use_after + "db.Lock = 1\n"
+                        show = "def show(v):\n    db.Open = v\n" if bodyk == "call" else ""
+                        src = show + "def work(n, st, b0):\n" + ind(fbody) + "while True:\n    work(d0.Setting, d1.Setting, 1)\n    work(3, 1, 0)\n    yield_()\n"
+                        # step values 0 would never terminate: the alphabet for d1 (the step) is kept positive by the reference horizon
+                        out.append(mk("FORFN", n, src, tag=f"{bk}/{sk}/{tk}/{bodyk}/{after}", V=[1, 2, 3, 0], K=14, T=2, cap=64))
+                        n += 1
+    return out
+
+
+# ----------------------------------------------------------------------------
+# CONSTPROP: variables / parameters / globals that receive a compile-time constant in one of several assignments
+# (constant propagation through single-assignment variables must not fire for them) -- C01, C03
+
+def constprop(tier="quick"):
+    out = []
+    n = 0
+    consts = ["0", "1", "5", "100", "2.5", 'HASH("x")'] if tier == "thorough" else ["0", "5", "2.5", 'HASH("x")']
+    T = {
+        "local-cond": "v = d0.Setting\nif v > 1:\n    v = {c}\ndb.Setting = v\ndb.On = v + 1\n",
+        "local-read-before": "v = d0.Setting\ndb.On = v\nv = {c}\ndb.Setting = v\n",
+        "local-both-branches": "x = d0.Setting\nif x > 1:\n    v = {c}\nelse:\n    v = 7\ndb.Setting = v\n",
+        "local-loop": "v = 3\nk = 0\nwhile k < 3:\n    if k == d0.Setting:\n        v = {c}\n    k += 1\n    db.On = v\ndb.Setting = v\n",
+        "local-const-then-dyn": "v = {c}\ndb.On = v\nif d0.Setting > 1:\n    v = d1.Setting\ndb.Setting = v\n",
+        "param-cond": "def clamp(v):\n    if v > 1:\n        v = {c}\n    return v\nwhile True:\n    db.Setting = clamp(d0.Setting)\n    db.On = clamp(3)\n    yield_()\n",
+        "param-cond-once": "def clamp(v):\n    if v > 1:\n        v = {c}\n    return v\nwhile True:\n    db.Setting = clamp(d0.Setting)\n    yield_()\n",
+        "param-uncond": "def f(v):\n    db.On = v\n    v = {c}\n    db.Mode = v\n    return v\nwhile True:\n    db.Setting = f(d0.Setting)\n    db.Lock = f(2)\n    yield_()\n",
+        "param-second": "def f(a, v):\n    if a > v:\n        v = {c}\n    db.On = a\n    return v + a\nwhile True:\n    db.Setting = f(d0.Setting, 1)\n    db.Lock = f(2, d1.Setting)\n    yield_()\n",
+        "global-in-func": "G = d0.Setting\ndef f(a):\n    global G\n    if a > 1:\n        G = {c}\n    db.On = a\nwhile True:\n    db.Mode = G\n    f(d1.Setting)\n    db.Setting = G\n    f(0)\n    yield_()\n",
+        "global-const-then-func": "G = {c}\ndef f(a):\n    global G\n    G = G + a\nwhile True:\n    db.Mode = G\n    f(d0.Setting)\n    f(1)\n    db.Setting = G\n    yield_()\n",
+        "loopvar-after": "t = 0\nfor i in range(3):\n    t = {c}\n    if i == d0.Setting:\n        t = i\n    db.On = t\n",
+        "augassign": "v = {c}\nv += d0.Setting\ndb.Setting = v\nw = d1.Setting\nw *= 2\nw = {c}\ndb.On = w\n",
+    }
+    for tn, t in T.items():
+        for c in consts:
+            src = t.replace("{c}", c)
+            out.append(mk("CONSTPROP", n, src, tag=f"{tn}/{c}", V=[0, 1, 2, 3], K=10, T=2, cap=128))
+            n += 1
     return out
